@@ -61,6 +61,14 @@ type c18Step struct {
 	ID   string `json:"id"`
 	Sub  string `json:"sub,omitempty"`
 	Out  string `json:"observed,omitempty"`
+	// answer the recording downstream handler gives when this client EVENT reaches it:
+	// "" none, otherwise "<accepted>/<machine-readable prefix>"
+	Reply string `json:"downstream_ok,omitempty"`
+
+	replyAcc    bool
+	replyPrefix string
+	dsOK        int // downstream OKs for this step that reached the client
+	dsOKAltered string
 
 	consumed bool
 	fwd      int // seen by the recording handler (client msgs) / delivered to the client (SEVENT)
@@ -195,6 +203,24 @@ func (s *c18Session) absorb(o c18Obs) {
 			s.unsolicit = append(s.unsolicit, "client CLOSED "+m.SubscriptionID)
 		}
 	case *mocrelay.ServerOKMsg:
+		full := m.MsgPrefix + m.Msg
+		if i := strings.Index(full, "ds:"); i >= 0 {
+			// the downstream handler's own answer passing through the stack: not a
+			// rejection by the filter, and nothing the window model looks at
+			switch k := s.stepOfTag(full[i+3:]); {
+			case k >= 0:
+				st := s.steps[k]
+				st.dsOK++
+				if m.EventID != st.ID || m.Accepted != st.replyAcc || full != st.replyPrefix+"ds:"+s.tag(k) {
+					st.dsOKAltered = fmt.Sprintf("OK id=%q accepted=%v message=%q", m.EventID, m.Accepted, full)
+				}
+			case k == -1:
+				s.foreign = append(s.foreign, "client OK "+full)
+			default:
+				s.unsolicit = append(s.unsolicit, "client OK "+full)
+			}
+			return
+		}
 		if st := s.attrReply("EVENT", m.EventID, false); st != nil {
 			st.rej++
 			if m.Accepted || !strings.HasPrefix(m.MsgPrefix+m.Msg, "duplicate:") {
@@ -288,6 +314,17 @@ var c18Recorder = mocrelay.HandlerFunc(func(ctx context.Context, send chan<- moc
 				return mocrelay.ErrRecvClosed
 			}
 			s.post(c18Obs{down: true, cmsg: m})
+			if em, ok := m.(*mocrelay.ClientEventMsg); ok && em.Event != nil {
+				// scripted answer of the backend; steps are immutable while the session runs
+				if k := s.stepOfTag(em.Event.Content); k >= 0 && s.steps[k].Reply != "" {
+					okm := mocrelay.NewServerOKMsg(em.Event.ID, s.steps[k].replyAcc, s.steps[k].replyPrefix, "ds:"+em.Event.Content)
+					select {
+					case send <- okm:
+					case <-ctx.Done():
+						return ctx.Err()
+					}
+				}
+			}
 		case sm := <-s.cmd:
 			select {
 			case send <- sm:
@@ -390,7 +427,7 @@ steps:
 		if st.Kind == "CLOSE" && s.closeLost {
 			continue // an earlier CLOSE never came out; order stays unambiguous (unbuffered channel)
 		}
-		if !s.await(func() bool { return st.fwd > 0 || st.rej > 0 }) {
+		if !s.await(func() bool { return st.fwd > 0 && (st.Reply == "" || st.dsOK > 0) || st.rej > 0 }) {
 			if st.Kind == "CLOSE" {
 				s.closeLost = true
 				c18Stalls.Add(1)
@@ -521,6 +558,7 @@ func (s *c18Session) judge(rep *vk.Report, g *c18Group) {
 	open := map[string]bool{}
 	var recvL, sendL []string
 	wasFull, rejSinceFull := false, false
+	lastAnswer := map[string]string{} // event id -> last downstream answer seen for it (evidence only)
 	var sig strings.Builder
 	nontrivial := false
 	bad := false
@@ -628,6 +666,9 @@ func (s *c18Session) judge(rep *vk.Report, g *c18Group) {
 						bad = true
 					} else {
 						lc.count("recv_rejected_in_window", 1)
+						if a := lastAnswer[st.ID]; a != "" {
+							lc.count("recv_repeat_rejected_after_downstream_ok_"+a, 1)
+						}
 						lc.cell("recv_cells", cell+"/rej")
 						nontrivial = true
 					}
@@ -660,6 +701,14 @@ func (s *c18Session) judge(rep *vk.Report, g *c18Group) {
 				}
 			}
 			recvL = c18Touch(recvL, st.ID)
+			if st.fwd > 0 && st.dsOK > 0 {
+				lastAnswer[st.ID] = fmt.Sprint(st.replyAcc)
+				lc.count("downstream_ok_passed_through", 1)
+				lc.cell("downstream_ok_kinds", st.Reply)
+				if st.dsOKAltered != "" {
+					lc.count("downstream_ok_altered", 1)
+				}
+			}
 		case "SEVENT":
 			if ss == 0 {
 				break
@@ -824,6 +873,8 @@ func c18GenGroup(gi int, r *rand.Rand) *c18Group {
 	return g
 }
 
+var c18Prefixes = []string{"", "", "error: ", "blocked: ", "rate-limited: ", "invalid: ", "duplicate: ", "pow: "}
+
 func c18GenSession(gi, si int, g *c18Group, r *rand.Rand) *c18Session {
 	n := 10 + r.IntN(71)
 	if r.IntN(4) == 0 {
@@ -855,6 +906,8 @@ func c18GenSession(gi, si int, g *c18Group, r *rand.Rand) *c18Session {
 	}
 	tot := w[0] + w[1] + w[2] + w[3] + w[4]
 	open := map[string]bool{} // steering only
+	// in half of the sessions the downstream handler answers the EVENTs that reach it
+	answers := r.IntN(2) == 0
 	for k := 0; k < n; k++ {
 		x := r.IntN(tot)
 		st := &c18Step{}
@@ -880,6 +933,11 @@ func c18GenSession(gi, si int, g *c18Group, r *rand.Rand) *c18Session {
 			st.Kind, st.ID = "COUNT", vk.Pick(r, g.SubIDs)
 		case x < w[0]+w[1]+w[2]+w[3]:
 			st.Kind, st.ID = "EVENT", vk.Pick(r, g.EventIDs)
+			if answers && r.IntN(4) != 0 {
+				st.replyAcc = r.IntN(5) < 2
+				st.replyPrefix = vk.Pick(r, c18Prefixes)
+				st.Reply = fmt.Sprintf("%v/%s", st.replyAcc, st.replyPrefix)
+			}
 		default:
 			st.Kind, st.ID, st.Sub = "SEVENT", vk.Pick(r, g.EventIDs), vk.Pick(r, g.SubIDs)
 		}
@@ -907,7 +965,7 @@ func (g *c18Group) run() {
 
 func TestVerif_C18(t *testing.T) {
 	rep := vk.NewReport(t, "C18", "exploration")
-	rep.Rule = "a case is one session: a sequential REQ/CLOSE/COUNT/EVENT script (10-80 messages) plus EVENTs sent by the recording downstream handler, over alphabets of 2-6 subscription ids and 2-6 event ids, run through one shared middleware value (quota N in 1..4, receive window 1..4, send window 1..4, alone or stacked in random order) together with 1-5 other sessions using the same ids, sometimes followed by a second wave of sessions on the same value; each step's outcome (seen downstream / CLOSED / OK-false / delivered / suppressed) is compared with the session's own open-set and last-size-distinct-ids models; non-trivial = the session reached a quota or window boundary (a REQ that had to be refused, a repeat inside the window, or an id that had left the window); distinct = distinct (stack, per-step kind/id/outcome string)"
+	rep.Rule = "a case is one session: a sequential REQ/CLOSE/COUNT/EVENT script (10-80 messages) plus EVENTs sent by the recording downstream handler, over alphabets of 2-6 subscription ids and 2-6 event ids, run through one shared middleware value (quota N in 1..4, receive window 1..4, send window 1..4, alone or stacked in random order) together with 1-5 other sessions using the same ids, sometimes followed by a second wave of sessions on the same value; each step's outcome (seen downstream / CLOSED / OK-false / delivered / suppressed; in half of the sessions the downstream handler answers three quarters of the EVENTs that reach it with a tagged OK, accepted or refused, with and without machine-readable prefix, which the client waits for before the next message and which the models ignore) is compared with the session's own open-set and last-size-distinct-ids models; non-trivial = the session reached a quota or window boundary (a REQ that had to be refused, a repeat inside the window, or an id that had left the window); distinct = distinct (stack, per-step kind/id/outcome string)"
 	defer rep.Finish()
 
 	nGroups := vk.N(3000, 60000)
@@ -947,6 +1005,8 @@ func TestVerif_C18(t *testing.T) {
 	rep.Require(rep.Counter("quota_rejected_req_took_no_slot_witness") >= int64(nGroups/40), "too few refused-REQ-then-freed-slot patterns")
 	rep.Require(rep.Counter("recv_rejected_in_window") >= int64(nGroups), "too few receive-side repeats inside the window")
 	rep.Require(rep.Counter("recv_outside_window_fwd")+rep.Counter("recv_outside_window_rej") >= int64(nGroups/4), "too few receive-side ids that had left the window")
+	rep.Require(rep.Counter("recv_repeat_rejected_after_downstream_ok_false") >= int64(nGroups/2), "too few in-window repeats of an id the downstream handler had refused")
+	rep.Require(rep.Counter("recv_repeat_rejected_after_downstream_ok_true") >= int64(nGroups/4), "too few in-window repeats of an id the downstream handler had accepted")
 	rep.Require(rep.Counter("send_suppressed_in_window") >= int64(nGroups), "too few send-side repeats inside the window")
 	rep.Require(rep.Counter("send_outside_window_delivered")+rep.Counter("send_outside_window_suppressed") >= int64(nGroups/4), "too few send-side ids that had left the window")
 	// every quota and window size with every boundary cell
